@@ -332,7 +332,7 @@ def shrink(hist_text, workdir, pred, budget_s=120):
 DIRECT_EXTRA = {
     "C07": {"inv", "readpaths"}, "C18": {"marks"}, "C04": {"reopen-diff", "fatal"}, "C15": {"drop-outside", "drop-added"},
     "C19": {"fifo-deeper-level", "fifo-expired-kept", "fifo-not-oldest", "fifo-within-limits"},
-    "C12": {"block-bytes", "block-decode", "block-decode-back", "impl-iter", "impl-iter-rev", "point-read", "bloom-false-negative", "bloom-contains", "readpaths"},
+    "C12": {"impl-iter", "impl-iter-rev", "point-read", "bloom-false-negative", "readpaths"},
     "C11": {"config-diff"}, "C08": {"resolve", "dangling-pointer", "config-diff"}, "C09": {"gc-stats", "gc-ghost", "stale-bytes", "dead-file-kept", "gc-reopen", "blob-count", "dangling-pointer"},
     "C14": {"ingest-missing"}, "C17": {"filter-unknown-item"},
 }
@@ -439,8 +439,8 @@ PROPS = {
                 quick=160, thorough=4000,
                 relevant=lambda f: f["kind"] in ({"oracle-get", "oracle-contains", "oracle-range", "oracle-prefix", "oracle-len", "agree", "inv", "nosv", "filter-unknown-item", "resolve"} | COMMON_KINDS),
                 nontrivial=lambda st: st.get("filtered_merges", 0) >= 1 and st.get("filter_calls", 0) >= 1 and st.get("gets_from_tables", 0) >= 1),
-    "C18": dict(engine="tree", profiles=[("tree", 3, False), ("ingest", 2, False), ("drop", 1, False)], n_ops=120,
-                quick=160, thorough=4000,
+    "C18": dict(engine="tree", profiles=[("tree", 1, False), ("lvl", 6, False), ("moves", 1, False), ("ingest", 1, False), ("drop", 1, False)], n_ops=120,
+                quick=600, thorough=8000,
                 relevant=lambda f: f["kind"] in ({"marks"} | COMMON_KINDS),
                 nontrivial=TREE_NONTRIVIAL),
 }
@@ -454,6 +454,16 @@ PROPS["C11"] = dict(engine="multi", profiles=[("tree", 1, False), ("ingest", 1, 
                     quick=40, thorough=1000, k=dict(quick=(4, 3), thorough=(8, 4)),
                     relevant=lambda f: f["kind"] in ({"config-diff", "oracle-get", "oracle-contains", "oracle-range", "oracle-prefix", "oracle-len", "oracle-first", "oracle-last", "oracle-isempty", "agree", "inv", "readpaths", "resolve", "reopen-diff", "marks"} | COMMON_KINDS),
                     nontrivial=lambda st: st.get("flush_steps", 0) >= 1 and st.get("gets_from_tables", 0) >= 1)
+
+BLOB_KINDS = {"resolve", "dangling-pointer", "gc-stats", "stale-bytes", "dead-file-kept", "gc-reopen", "blob-count"}
+PROPS["C08"] = dict(engine="multi", profiles=[("blob", 2, True), ("tree", 1, True), ("weak", 1, True), ("ingest", 1, True), ("filter", 1, True)], n_ops=110,
+                    quick=60, thorough=1500, k=dict(quick=(3, 3), thorough=(5, 5)), modes=["blobdiff"],
+                    relevant=lambda f: f["kind"] in ({"config-diff", "resolve", "dangling-pointer", "oracle-get", "oracle-contains", "oracle-range", "oracle-prefix", "oracle-len", "oracle-first", "oracle-last", "oracle-isempty", "agree", "inv", "reopen-diff", "filter-unknown-item"} | COMMON_KINDS),
+                    nontrivial=lambda st: st.get("flush_steps", 0) >= 1 and st.get("gets_from_tables", 0) >= 1)
+PROPS["C09"] = dict(engine="tree", profiles=[("blob", 4, True), ("filter", 1, True), ("ingest", 1, True), ("fifo", 1, True)], n_ops=130,
+                    quick=200, thorough=5000,
+                    relevant=lambda f: f["kind"] in (BLOB_KINDS | {"gc-ghost", "inv", "reopen-diff"} | COMMON_KINDS),
+                    nontrivial=lambda st: st.get("gc_entries_checked", 0) >= 1 and st.get("merge_steps", 0) + st.get("drop_steps", 0) >= 1)
 
 TB_KINDS = {"block-bytes", "block-decode", "block-decode-back", "impl-iter", "impl-iter-rev", "point-read", "point-read-model",
             "bloom-bytes", "bloom-build", "bloom-false-negative", "bloom-decode", "bloom-contains", "encode-error", "bloom-reader-error",
@@ -528,14 +538,15 @@ def multi_engine(prop, tier, seed, count_override, coq):
     jobs = []
     for i in range(total):
         prof, _, blob = profiles[i % len(profiles)]
-        jobs.append((seed * 1000003 + i, prof, blob, "sep" if i % 2 == 0 else "shared"))
+        modes = spec.get("modes", ["sep", "shared"])
+        jobs.append((seed * 1000003 + i, prof, blob, modes[i % len(modes)]))
 
     def one(job):
         sd, prof, blob, mode = job
         hist = os.path.join(workdir, f"{sd}.hist")
         rc, out = sh([LSMV, "gen", prof, str(sd), str(spec["n_ops"])] + (["blob"] if blob else []), timeout=120)
         open(hist, "w").write(out)
-        k = k_sep if mode == "sep" else k_shared
+        k = k_shared if mode == "shared" else k_sep
         prefix = os.path.join(workdir, f"{sd}-{mode}")
         rc, out = sh([LSMV, "multi", hist, os.path.join(workdir, f"scratch-{sd}"), prefix, str(k), str(sd), mode], timeout=600)
         shutil.rmtree(os.path.join(workdir, f"scratch-{sd}"), ignore_errors=True)
@@ -548,10 +559,19 @@ def multi_engine(prop, tier, seed, count_override, coq):
                 continue
             fails, drifts, stat = analyse_trace(tr)
             stat["trees"] = 1
-            stat["shared_cache_trees" if mode == "shared" else "config_variants"] = 1
+            stat["shared_cache_trees" if mode == "shared" else ("blobdiff_trees" if mode == "blobdiff" else "config_variants")] = 1
             res.append((hist, tr, fails, drifts, stat))
             olines.append([l for l in open(tr) if l.startswith("O ")])
-        if mode == "sep" and olines:
+        if mode == "blobdiff":
+            # a key-value separated tree may allocate a different number of version seqnos
+            # (different file sizes -> different compaction decisions); answers must be equal,
+            # the snapshot numbers they were asked at need not be
+            def strip_seq(l):
+                t = l.split()
+                idx = {"get": 3, "range": 4, "prefix": 3}.get(t[1], 2)
+                return " ".join(t[:idx] + t[idx + 1:])
+            olines = [[strip_seq(l) for l in ol] for ol in olines]
+        if mode in ("sep", "blobdiff") and olines:
             for j in range(1, len(olines)):
                 if olines[j] != olines[0]:
                     d = next((a.strip() + " <> " + b.strip() for a, b in zip(olines[0], olines[j]) if a != b), "different number of observations")
@@ -630,10 +650,17 @@ def finish(prop, tier, seed, spec, all_results, gen_errs, coq, workdir, t0):
     for (hist, text, rel) in violations[:3]:
         f0 = rel[0]
         if f0.get("tbench_case"):
+            # the same case may also contain a direct failure (a read that returns the wrong item)
+            same = [f for f in rel if f.get("tbench_case") == f0["tbench_case"]]
+            direct = next((f for f in same if is_direct(prop, f)), None)
+            chosen = direct or f0
+            note = "" if direct else " no-failing-input-found"
             hid = "tbench-" + f0["tbench_case"]
             rp = os.path.join(EVID, "replays", f"{prop}-{hid}.txt")
-            open(rp, "w").write("# replay: harness/target/debug/lsmv tbench %s 1 /tmp/case.txt && ocaml/tbrunner /tmp/case.txt\n# failure: %s\n" % (f0["tbench_case"], f0["line"]))
-            reported.append((rp, f0, ""))
+            open(rp, "w").write("# replay: harness/target/debug/lsmv tbench %s 1 /tmp/case.txt && ocaml/tbrunner /tmp/case.txt\n# failure: %s\n%s" % (
+                f0["tbench_case"], chosen["line"],
+                "" if direct else "# no read returned a wrong item; what no longer checks: byte-level correspondence '%s' between the crate's encoder and the Coq codec (theorems C12_datablock_* are about the modelled format)\n" % f0["kind"]))
+            reported.append((rp, chosen, note))
             continue
         pred = lambda f, k=f0["kind"]: f["kind"] == k and relevant(f)
         small = shrink(text, workdir, pred, budget_s=90) if text else text
